@@ -2,7 +2,9 @@
 # Sensitivity and silence of the checks: applies each patch under selftest/sensitivity (must be caught: exit 1 with a
 # replay that reproduces) and selftest/benign (must stay silent: exit 0) to a scratch worktree of /repo and runs the
 # unchanged harness against it (VERIF_REPO). Nothing is written into /repo, /verif/evidence or /verif/replays.
-#   selftest/sensitivity.sh [pattern]      e.g. selftest/sensitivity.sh C14
+#   selftest/sensitivity.sh [pattern]      e.g. selftest/sensitivity.sh C14   (breakages and seeded changes of C14, and the
+#                                          benign edits against the C14 check only)
+# Only one instance at a time (fixed scratch directories under /tmp); do not edit sim/ while it runs.
 set -u
 cd "$(dirname "$0")/.."
 PAT="${1:-}"
@@ -34,10 +36,11 @@ for d in seeded/*"$PAT"*/; do
   rules=$(echo "$out" | grep -o 'rule=[A-Z][A-Za-z0-9-]*' | sort -u | tr '\n' ' ')
   if [ $rc -eq 1 ]; then echo "CAUGHT   seeded/$name  ${rules} ($((t1-t0))s)"; else echo "MISSED   seeded/$name  rc=$rc ($((t1-t0))s)"; fail=1; fi
 done
+case "$PAT" in C06|C07|C08|C13|C14|C15|C18|C19) BPROPS="$PAT";; "") BPROPS="C06 C07 C08 C13 C14 C15 C18 C19";; *) BPROPS="";; esac
 for f in selftest/benign/*.patch; do
-  [ -n "$PAT" ] && break
+  [ -z "$BPROPS" ] && break
   git -C "$W" checkout -q -- . && git -C "$W" apply "$PWD/$f" || { echo "APPLY-FAILED $f"; fail=1; continue; }
-  for prop in C06 C07 C08 C13 C14 C15 C18 C19; do
+  for prop in $BPROPS; do
     out=$(./check "$prop" --tier quick --runs $(./check planned "$prop" half) 2>&1); rc=$?
     if [ $rc -eq 0 ]; then echo "SILENT   $(basename $f) $prop"; else echo "ALARM    $(basename $f) $prop rc=$rc: $(echo "$out" | grep -m1 -A1 VIOLATION | tr '\n' ' ')"; fail=1; fi
   done
